@@ -71,6 +71,19 @@ class State:
 
     def assume(self, c):
         self.conds.append(c)
+        # a cached satisfying assignment of the path condition stays valid only if it also satisfies c
+        m = self.env.get('_model')
+        if m is not None:
+            try:
+                if not z3.is_true(m.eval(c, model_completion=True)): self.env.pop('_model', None)
+            except z3.Z3Exception:
+                self.env.pop('_model', None)
+        # equalities `var == value` pin a variable on this path (used to decide later branches without a solver call)
+        if z3.is_eq(c):
+            a, b = c.arg(0), c.arg(1)
+            if z3.is_const(b) and b.decl().kind() == z3.Z3_OP_UNINTERPRETED and (z3.is_bv_value(a) or z3.is_true(a) or z3.is_false(a)): a, b = b, a
+            if z3.is_const(a) and a.decl().kind() == z3.Z3_OP_UNINTERPRETED and (z3.is_bv_value(b) or z3.is_true(b) or z3.is_false(b)):
+                self.env['_pins'] = self.env.get('_pins', ()) + ((a, b),)
 
 
 def _proj(v, p):
@@ -155,6 +168,7 @@ class Executor:
         self.seed = 0
         self.query_timeout_s = float(os.environ.get('VERIF_QUERY_TIMEOUT_S', '60'))
         self._fcache = {}
+        self.model_hits = 0
 
     # ------------------------------------------------------------------ solver
     def solver(self):
@@ -163,6 +177,17 @@ class Executor:
         s.set('timeout', int(self.query_timeout_s * 1000))
         return s
 
+    def quick_check(self, conds):
+        """(result, solver): the plain SMT core first (no tactic pipeline, ~10x cheaper per small query), the full solver when it gives up"""
+        s = z3.SimpleSolver()
+        s.set('random_seed', self.seed); s.set('timeout', 3000)
+        s.add(*conds)
+        t = time.time(); r = s.check(); self.solver_time += time.time() - t; self.queries += 1
+        if r == z3.unknown:
+            s = self.solver(); s.add(*conds)
+            t = time.time(); r = s.check(); self.solver_time += time.time() - t
+        return r, s
+
     def feasible(self, st, extra=None):
         if extra is not None:
             e = z3.simplify(extra)
@@ -170,17 +195,29 @@ class Executor:
             if z3.is_true(e): extra = None
         if extra is None and not st.conds:
             return True
-        s = self.solver()
-        s.add(*st.conds)
-        if extra is not None: s.add(extra)
-        t = time.time(); r = s.check(); self.solver_time += time.time() - t; self.queries += 1
+        if extra is not None:
+            pins = st.env.get('_pins')
+            if pins:
+                e2 = z3.simplify(z3.substitute(extra, *pins))
+                if z3.is_false(e2): return False      # extra contradicts the pinned values (which the path condition implies)
+                if z3.is_true(e2): return True        # extra follows from the pinned values
+            m = st.env.get('_model')
+            if m is not None:
+                try:
+                    if z3.is_true(m.eval(extra, model_completion=True)):
+                        self.model_hits += 1
+                        return True                   # a known satisfying assignment of the path condition satisfies extra too
+                except z3.Z3Exception:
+                    pass
+        r, s = self.quick_check(list(st.conds) + ([extra] if extra is not None else []))
         if r == z3.unknown:
             raise Unsupported('solver returned unknown on a feasibility query')
+        if r == z3.sat:
+            st.env['_model'] = s.model()
         return r == z3.sat
 
     def check_sat(self, conds):
-        s = self.solver(); s.add(*conds)
-        t = time.time(); r = s.check(); self.solver_time += time.time() - t; self.queries += 1
+        r, s = self.quick_check(conds)
         if r == z3.unknown:
             raise Unsupported('solver returned unknown')
         return (s.model() if r == z3.sat else None)
@@ -437,6 +474,21 @@ class Executor:
         m = re.match(r'^(-?\d+)_(\w+)$', txt)
         if m and m.group(2) in INT_TYPES:
             return Int(int(m.group(1)), m.group(2))
+        from .models import CONST_MODELS
+        if txt in CONST_MODELS:
+            self.models_used.add('const ' + txt)
+            return CONST_MODELS[txt](st)
+        mc = re.match(r'^(?:\w+::)+([A-Z][A-Z0-9_]*)$', txt)
+        if mc and fn is not None:
+            cf = self.prog.by_name.get(mc.group(1))
+            if cf is not None and cf.crate == fn.crate and not cf.params and cf.sig.startswith('fn ' + mc.group(1) + '()'):
+                key = ('constitem', cf.crate, cf.name)
+                if key not in st.env:
+                    outs = list(self.run(cf, [], st, 0))
+                    if len(outs) != 1 or outs[0][1] != 'ret':
+                        raise Unsupported(f'const item {txt} did not evaluate to a single value')
+                    st.env[key] = outs[0][2]
+                return st.env[key]
         if txt == 'true': return Bool(True)
         if txt == 'false': return Bool(False)
         if txt == '()': return UNIT
